@@ -556,6 +556,7 @@ def run(ctx):
              "reopen": 0, "nofill_histories": 0, "rank_hist": {}, "type_hist": {}, "harness_deaths": 0,
              "model_compared_ops": 0}
     queue = list(hists)
+    model_reports = 0
     todo = []
     base = 0
     CH = 120     # histories per harness process (keeps one process's leaked state from piling up)
@@ -589,10 +590,14 @@ def run(ctx):
             ctx.case(tuple(h), bool(meta.get("compared")),
                      sample={"history": [x[:100] for x in h[:6]], "lib": [x[:100] for x in Rh[k][:6]]}
                      if (base + k) % 157 == 0 else None)
-            if sp or mp:
+            if sp or (mp and not model_reports):
                 if died_at == k:
                     stats["harness_deaths"] += 1
+                if not sp:
+                    model_reports += 1      # one report of a broken R ~ M tie is enough; keep looking for R vs S
                 report(ctx, h, sp, mp, Rh[k], Sh[k], Mh[k], noise[k])
+            if mp and not sp:
+                stats["model_mismatches"] = stats.get("model_mismatches", 0) + 1
             if died_at is not None or len(ctx.violations) >= 3:
                 break
         if len(ctx.violations) >= 3:
